@@ -34,6 +34,25 @@ Proof. exact load_bytes_ok. Qed.
 Theorem C08_reject_out_of_range : forall bs : bytes,
   from_repr bs = None <-> length bs <> 24%nat \/ (p <= Z.of_N (le_of_bytes bs))%Z.
 Proof. exact from_repr_none. Qed.
+(* accepted strings are canonical encodings up to ignored bytes: the Shamir chunk may carry fewer than 24
+   trailing bytes (a partial field element), a report may be followed by arbitrary trailing bytes; nothing
+   else.  Re-encoding therefore differs from the input only by dropping those bytes and adjusting the
+   enclosing length prefixes *)
+Theorem C08_sharks_canon : forall (bs : bytes) (s : share), wf bs -> share_from_bytes bs = Ok s ->
+  exists tail, bs = share_to_bytes s ++ tail /\ (length tail < 24)%nat.
+Proof. exact share_from_bytes_canon. Qed.
+Theorem C08_share_canon : forall (bs : bytes) (s : ashare), wf bs -> ashare_from_bytes bs = Ok s ->
+  exists tail, (length tail < 24)%nat /\ length (aJ s) = Params.mac_length /\
+    bs = le32 (aA s) ++ store_bytes (share_to_bytes (aS s) ++ tail) ++ store_bytes (aC s) ++ store_bytes (aD s) ++ aJ s.
+Proof. exact ashare_from_bytes_canon. Qed.
+Theorem C08_report_canon : forall (bs : bytes) (m : message), wf bs -> message_from_bytes bs = Ok m ->
+  exists tail trailing, (length tail < 24)%nat /\
+    bs = store_bytes (mCt m)
+         ++ store_bytes (le32 (aA (mShare m)) ++ store_bytes (share_to_bytes (aS (mShare m)) ++ tail)
+                         ++ store_bytes (aC (mShare m)) ++ store_bytes (aD (mShare m)) ++ aJ (mShare m))
+         ++ store_bytes (mTag m) ++ trailing.
+Proof. exact message_from_bytes_canon. Qed.
+
 (* the decoders are total: malformed input is an error value, never a panic *)
 Theorem C08_decoders_total : forall bs : bytes,
   load_bytes bs <> Panic /\ share_from_bytes bs <> Panic /\ ashare_from_bytes bs <> Panic /\ message_from_bytes bs <> Panic.
